@@ -273,8 +273,8 @@ int sx127x_reload_low_datarate_optimization(sx127x *device) {
   spreading_factor = (spreading_factor >> 4);
 
   // Section 4.1.1.5
-  uint32_t symbol_duration = 1000 / (bandwidth / (1L << spreading_factor));
-  if (symbol_duration > 16) {
+  // symbol duration 2^SF / BW exceeds 16 ms. Compare exactly: 16.384 ms must count as longer
+  if (((uint64_t) 1000 << spreading_factor) > (uint64_t) 16 * bandwidth) {
     // force low data rate optimization
     return sx127x_lora_set_low_datarate_optimization(true, device);
   } else {
